@@ -1,4 +1,5 @@
-import PqModel.Search
+import PqModel.SearchMulti
+import PqModel.SearchNaN
 
 /-! # C06 — Page search by value never misses a page that contains the value
 
@@ -70,6 +71,23 @@ theorem find_no_miss_writer (nf : Bool) (z : Int) (ix : Index) (v : Int)
 
 example : writerOrder 0 f1 = 1 ∧ find false (writerOrder 0 f1 == 1) f1 8 = 2 := by decide
 
+/-- The same for the byte-array indexers with a size limit, whose null-page placeholders are truncated with the
+    bounds and therefore differ between the min list (`zn`) and the max list (`zx`): BYTE_ARRAY and
+    FIXED_LEN_BYTE_ARRAY with `ColumnIndexSizeLimit`. Truncated bounds are just wider bounds (`hle`). -/
+theorem find_no_miss_writer_truncating (nf : Bool) (zn zx : Int) (ix : Index) (v : Int)
+    (hlen : ix.maxs.length = ix.mins.length)
+    (hle : ∀ i a b, i < ix.n → minAt ix i = some a → maxAt ix i = some b → a ≤ b) :
+    let r := find nf (writerOrder2 zn zx ix == 1) ix v
+    r ≤ ix.n ∧ (r < ix.n → contains nf ix r v = true) ∧ (∀ p, p < ix.n → contains nf ix p v = true → r ≤ p) := by
+  apply find_no_miss
+  intro hasc hnn
+  exact writerOrder2_ascending zn zx ix hlen (by simpa using hasc) hnn hle
+
+-- FIXED_LEN_BYTE_ARRAY(2), limit 1, pages null, (01xx..01xx): the null page stores 00 / 01, the flag is ASCENDING
+example : writerOrder2 0 1 { mins := [none, some 1], maxs := [none, some 2] } = 1 ∧
+    find false (writerOrder2 0 1 { mins := [none, some 1], maxs := [none, some 2] } == 1)
+      { mins := [none, some 1], maxs := [none, some 2] } 2 = 1 := by decide
+
 /-- the dispatch before the repair (binary search whenever flagged ascending) misses: F1 -/
 theorem findUnguarded_misses : contains false f1 2 8 = true ∧ findUnguarded false true f1 8 = 3 := by decide
 
@@ -78,5 +96,168 @@ theorem findUnguarded_misses : contains false f1 2 8 = true ∧ findUnguarded fa
     the nulls-first ordering finds -4 in page 2: the linear search may not stop at the null page. -/
 example : writerOrder 0 { mins := [none, some (-2), some (-5)], maxs := [none, some (-1), some (-3)] } = 2 ∧
     find true false { mins := [none, some (-2), some (-5)], maxs := [none, some (-1), some (-3)] } (-4) = 2 := by decide
+
+/-! ## The column-index view `Find` is called on for several row groups: `multiColumnIndex`
+
+`Chunk` = one chunk's column index as the `ColumnIndex` interface shows it (null-page flags, bounds, its own
+ASCENDING / DESCENDING answers). MIRRORS (multi_row_group.go): `mapPage`/`mapPageGo` (page lookup through the
+cumulative offsets), `multiView`, `multiViewNulls`, `multiIsAscending`, `multiIsDescending`, `findMultiGo`.
+SPEC: `concat`, `concatNulls` (list concatenation), `Ascending`. -/
+
+/-- MIRROR = SPEC: reading the multi index page by page through `mapPageIndex` gives exactly the concatenation
+    of the chunk indexes — bounds and null-page flags — for any number of chunks and pages (empty chunks too). -/
+theorem multi_view_is_concatenation (cs : List Chunk) (hwf : ∀ c ∈ cs, c.WF) :
+    multiView cs = concat cs ∧ multiViewNulls cs = concatNulls cs :=
+  multiView_eq_concat cs hwf
+
+/-- The recomputed ASCENDING answer implies the sortedness `binarySearch_first` needs, across the chunk borders
+    as well. Hypotheses: `hnull` is the guard of `Find` (no null page in any chunk); `hbnd`: a chunk without null
+    page has no null bound (true of `FileColumnIndex`/`formatColumnIndex`, whose bounds are decoded from bytes);
+    `hne`,`htruth`: a chunk that claims ASCENDING has a page and its stored bounds pass the adjacent-pair check
+    (true of the writer's flag: `writerOrder_one`); `hle`: `min ≤ max` per page. -/
+theorem multi_ascending_sound (z : Int) (cs : List Chunk)
+    (hwf : ∀ c ∈ cs, c.WF)
+    (hnull : (concatNulls cs).any id = false)
+    (hbnd : ∀ c ∈ cs, c.nulls.any id = false → hasNull c.ix = false)
+    (hne : ∀ c ∈ cs, c.asc = true → 0 < c.n)
+    (htruth : ∀ c ∈ cs, c.asc = true →
+      isAsc (c.ix.mins.map (stored z)) = true ∧ isAsc (c.ix.maxs.map (stored z)) = true)
+    (hle : ∀ c ∈ cs, ∀ i a b, i < c.n → minAt c.ix i = some a → maxAt c.ix i = some b → a ≤ b)
+    (hflag : multiIsAscending z cs = true) :
+    ∃ mn mx, Ascending (concat cs) mn mx :=
+  multiAscending_sound z cs hwf hnull hbnd hne htruth hle hflag
+
+/-- `Find` on the multi index of chunks the WRITER indexed (each chunk's ASCENDING answer is the boundary order
+    the indexer computed, null pages stored as the zero value `z`) never misses: it returns the first page of the
+    concatenation whose bounds contain `v`, else the total number of pages. Any number of row groups, null pages
+    anywhere, overlapping / touching / disjoint chunk ranges, truncated (widened) and duplicate bounds. -/
+theorem find_no_miss_multi_writer (nf : Bool) (z : Int) (cs : List Chunk) (v : Int)
+    (hwf : ∀ c ∈ cs, c.WF)
+    (hbnd : ∀ c ∈ cs, c.nulls.any id = false → hasNull c.ix = false)
+    (hflag : ∀ c ∈ cs, c.asc = (writerOrder z c.ix == 1))
+    (hle : ∀ c ∈ cs, ∀ i a b, i < c.n → minAt c.ix i = some a → maxAt c.ix i = some b → a ≤ b) :
+    let r := findMultiGo nf z cs v
+    r ≤ (concat cs).n ∧ (r < (concat cs).n → contains nf (concat cs) r v = true) ∧
+    (∀ p, p < (concat cs).n → contains nf (concat cs) p v = true → r ≤ p) := by
+  apply findMulti_no_miss nf z cs v hwf hbnd
+  · intro c hc ha
+    have hw : writerOrder z c.ix = 1 := by simpa [hflag c hc] using ha
+    have := (writerOrder_one z c.ix hw).2.2
+    simp only [Chunk.n]; omega
+  · intro c hc ha
+    have hw : writerOrder z c.ix = 1 := by simpa [hflag c hc] using ha
+    exact ⟨(writerOrder_one z c.ix hw).1, (writerOrder_one z c.ix hw).2.1⟩
+  · exact hle
+
+/-- two row groups of two pages, (0,9) (10,50) | (60,69) (70,80): the hypotheses hold and the multi index is ASCENDING -/
+def mDisjoint : List Chunk :=
+  [ { nulls := [false, false], ix := { mins := [some 0, some 10], maxs := [some 9, some 50] }, asc := true, desc := false },
+    { nulls := [false, false], ix := { mins := [some 60, some 70], maxs := [some 69, some 80] }, asc := true, desc := false } ]
+
+example : (∀ c ∈ mDisjoint, c.WF) ∧ (∀ c ∈ mDisjoint, c.asc = (writerOrder 0 c.ix == 1)) ∧
+    (concatNulls mDisjoint).any id = false ∧ multiIsAscending 0 mDisjoint = true ∧
+    findMultiGo false 0 mDisjoint 75 = 3 := by decide
+
+-- the hypotheses of `find_no_miss_multi_writer` are satisfiable: it applies to `mDisjoint`
+theorem mDisjoint_le : ∀ c ∈ mDisjoint, ∀ i a b, i < c.n → minAt c.ix i = some a → maxAt c.ix i = some b → a ≤ b := by
+  intro c hc i a b hi ha hb
+  simp only [mDisjoint, List.mem_cons, List.mem_nil_iff, or_false] at hc
+  rcases hc with rfl | rfl <;>
+  · simp only [Chunk.n, Index.n, List.length_cons, List.length_nil] at hi
+    have : i = 0 ∨ i = 1 := by omega
+    rcases this with rfl | rfl <;> simp [minAt, maxAt] at ha hb <;> omega
+
+example := find_no_miss_multi_writer false 0 mDisjoint 75 (by decide) (by decide) (by decide) mDisjoint_le
+
+/-- the layout of seeded change C06-3a, (0,9) (10,50) | (20,29) (30,60): each row group ascending, ranges overlap -/
+def mOverlap : List Chunk :=
+  [ { nulls := [false, false], ix := { mins := [some 0, some 10], maxs := [some 9, some 50] }, asc := true, desc := false },
+    { nulls := [false, false], ix := { mins := [some 20, some 30], maxs := [some 29, some 60] }, asc := true, desc := false } ]
+
+/-- the code's border check (max of the last page against min of the next first page) answers "not ascending",
+    and `Find` (linear) returns page 1 for 50 -/
+example : multiIsAscending 0 mOverlap = false ∧ findMultiGo false 0 mOverlap 50 = 1 := by decide
+
+/-- A border check that compares the MIN of the last page with the min of the next first page ("pages may overlap as
+    within a chunk") is not enough: the index is then claimed ascending and the binary search misses 50, held by page 1. -/
+theorem border_check_on_min_misses :
+    let crossMinMin : Chunk → Chunk → Bool := fun a b =>
+      match lastNonNull a, firstNonNull b with
+      | some i, some j => !decide (stored 0 (minAt a.ix i) > stored 0 (minAt b.ix j))
+      | _, _ => true
+    pairsAll crossMinMin mOverlap = true ∧ contains false (concat mOverlap) 1 50 = true ∧
+    binarySearch false (concat mOverlap) 50 = 3 := by decide
+
+/-- FINDING (before repair 78de8a3 in the sandbox clone): an EMPTY dictionary-encoded column buffer showed one page
+    with null bounds that was NOT a null page (`indexedColumnIndex.NullPage` = false). Over the buffers (-5..-1),
+    (empty), (10..12) the multi index is claimed ascending (the raw comparison reads the null bound as 0), `Find`'s
+    null-page guard does not fire, and the binary search returns NumPages for 11, held by page 2. `hbnd` of
+    `multi_ascending_sound` is exactly what this chunk violates. -/
+theorem empty_dictionary_buffer_misses_before_fix :
+    let cs : List Chunk :=
+      [ { nulls := [false], ix := { mins := [some (-5)], maxs := [some (-1)] }, asc := true, desc := false },
+        { nulls := [false], ix := { mins := [none], maxs := [none] }, asc := true, desc := false },
+        { nulls := [false], ix := { mins := [some 10], maxs := [some 12] }, asc := true, desc := false } ]
+    multiIsAscending 0 cs = true ∧ (concatNulls cs).any id = false ∧
+    contains false (concat cs) 2 11 = true ∧ findMultiGo false 0 cs 11 = 3 := by decide
+
+/-- the same buffers after the repair (the empty buffer's page is a null page): `Find` goes linear and finds page 2 -/
+example :
+    let cs : List Chunk :=
+      [ { nulls := [false], ix := { mins := [some (-5)], maxs := [some (-1)] }, asc := true, desc := false },
+        { nulls := [true], ix := { mins := [none], maxs := [none] }, asc := true, desc := false },
+        { nulls := [false], ix := { mins := [some 10], maxs := [some 12] }, asc := true, desc := false } ]
+    findMultiGo false 0 cs 11 = 2 := by decide
+
+/-- OBSERVATION (outside C06: `Find` never reads the DESCENDING answer): `multiColumnIndex.IsDescending` compares the
+    FIRST page of a chunk with the LAST page of the next one, so (10,12) (1,2) | (8,9) (0,0) is claimed descending
+    although the mins 10, 1, 8, 0 are not. -/
+theorem multiIsDescending_unsound :
+    let cs : List Chunk :=
+      [ { nulls := [false, false], ix := { mins := [some 10, some 1], maxs := [some 12, some 2] }, asc := false, desc := true },
+        { nulls := [false, false], ix := { mins := [some 8, some 0], maxs := [some 9, some 0] }, asc := false, desc := true } ]
+    multiIsDescending 0 cs = true ∧ isDesc ((concat cs).mins.map (stored 0)) = false := by decide
+
+/-- OBSERVATION: only ADJACENT chunks are compared, and a chunk of null pages only is skipped on both sides, so
+    (5,9) (10,12) | null null | (1,2) (3,4) is claimed ascending. `Find` is safe only through its null-page guard. -/
+theorem multiIsAscending_blind_across_null_chunk :
+    let cs : List Chunk :=
+      [ { nulls := [false, false], ix := { mins := [some 5, some 10], maxs := [some 9, some 12] }, asc := true, desc := false },
+        { nulls := [true, true], ix := { mins := [none, none], maxs := [none, none] }, asc := true, desc := false },
+        { nulls := [false, false], ix := { mins := [some 1, some 3], maxs := [some 2, some 4] }, asc := true, desc := false } ]
+    multiIsAscending 0 cs = true ∧ findMultiGo false 0 cs 3 = 5 ∧ findMultiGo true 0 cs 3 = 5 := by decide
+
+/-! ## FLOAT / DOUBLE indexes with NaN bounds (`SearchNaN.lean`)
+
+`Type.Compare` of the float types answers 0 against NaN, so bounds are `FB` = null | NaN | rank and the mirrors
+`findF`, `binarySearchF`, `linearSearchF`, `writerOrderF` repeat search.go / column_index.go over them. They
+coincide with the rank mirrors when no bound is NaN (`findF_toF`, `ranks_toF`). -/
+
+/-- `Find` never misses on the index the FLOAT/DOUBLE indexers build, NaN pages included: same statement as
+    `find_no_miss_writer`, `containsF` = the bounds test under the float comparison (a NaN bound excludes nothing). -/
+theorem find_no_miss_writer_float (nf : Bool) (z : Int) (ix : FIndex) (v : Int)
+    (hlen : ix.maxs.length = ix.mins.length)
+    (hle : ∀ i a b, i < ix.n → minAtF ix i = .val a → maxAtF ix i = .val b → a ≤ b) :
+    let r := findF nf (writerOrderF z ix == 1) ix v
+    r ≤ ix.n ∧ (r < ix.n → containsF nf ix r v = true) ∧ (∀ p, p < ix.n → containsF nf ix p v = true → r ≤ p) :=
+  findF_no_miss_writer nf z ix v hlen hle (fun jx h1 h2 => find_no_miss_writer nf z jx v h1 h2)
+
+/-- pages (5,7), all-NaN, (1,3): no order is claimed; `Find` returns a page at or before page 2 for the probe 2 -/
+def fNaN : FIndex := { mins := [.val 5, .nan, .val 1], maxs := [.val 7, .nan, .val 3] }
+
+example : writerOrderF 0 fNaN = 0 ∧ findF false (writerOrderF 0 fNaN == 1) fNaN 2 = 1 ∧
+    containsF false fNaN 2 2 = true := by decide
+
+-- the hypotheses of `find_no_miss_writer_float` are satisfiable: it applies to `fNaN`
+example := find_no_miss_writer_float false 0 fNaN 2 (by decide) (by
+  intro i a b hi ha hb
+  simp only [fNaN, FIndex.n, List.length_cons, List.length_nil] at hi
+  have : i = 0 ∨ i = 1 ∨ i = 2 := by omega
+  rcases this with rfl | rfl | rfl <;> simp [fNaN, minAtF, maxAtF] at ha hb <;> omega)
+
+/-- why the order claim must go: the binary search steps over the NaN page and misses page 2 (finding
+    `boundary-order-false-nan-page`, repaired by 2854665) -/
+theorem nan_page_binary_search_misses :
+    containsF false fNaN 2 2 = true ∧ binarySearchF false fNaN 2 = 3 := by decide
 
 end PqModel.Props.C06
